@@ -20,6 +20,7 @@ def shapes():
     out.append(("window2-stride2", [("a", A2)], "window", 2, 2, None))
     out.append(("window2-start0", [("a", A2)], "window", 2, 1, 0))      # start before the window is complete: None entries
     out.append(("window2-start2", [("a", A2)], "window", 2, 1, 2))
+    out.append(("window2x2-start0", [("a", A2), ("b", ["x", "y"])], "window", 2, 1, 0))      # two source factors, early start: None history in both
     out.append(("window1-stride2", [("a", A2)], "window", 1, 2, None))
     return out
 
@@ -95,7 +96,7 @@ def main(tier):
         if total <= (300 if tier == "quick" else 5000):
             tables = itertools.product(opts, repeat=len(keys))
         else:
-            tables = (tuple(rng.choice(opts) for _ in keys) for _ in range(250 if tier == "quick" else 3000))
+            tables = (tuple(rng.choice(opts) for _ in keys) for _ in range((250 if len(keys) <= 16 else 60) if tier == "quick" else 3000))
             # always include the systematic single-defect tables
             base = [["A"] if i % 2 == 0 else ["B"] for i in range(len(keys))]
             extra = [tuple(base)]
@@ -152,7 +153,7 @@ def main(tier):
             ck.violation(f"C15.{expect}", f"{expect}:{d['name'].rsplit('-', 1)[0]}:{d['name']}", f"derived factor {d['name']} ({expect}): {bad}",
                          SC.design_replay(d, strategy="derived", expect=expect), tags=dict(kind=expect, shape=d["tags"][1]))
     ck.extra["cases_by_expectation"] = stats
-    ck.rule = "one case per (shape, truth-table assignment); shapes: within 2x2, within 3, transition, window width 2 stride 2 / start 0 / start 2, window width 1 stride 2; tables enumerated completely when <= 300 (thorough 5000) else seeded + all single-defect tables"
+    ck.rule = "one case per (shape, truth-table assignment); shapes: within 2x2, within 3, transition, window width 2 stride 2 / start 0 / start 2, two-factor window width 2 start 0, window width 1 stride 2; tables enumerated completely when <= 300 (thorough 5000) else seeded + all single-defect tables"
     ck.exhaustive = False
     ck.sample(dict(shape="within-2x2", table={"r|x": ["A"], "r|y": ["B"], "g|x": [], "g|y": ["A", "B"]}, expect="overlap"))
     ck.trust("spec/model.py reference reading for the 'total' case", "CPython")
